@@ -327,6 +327,8 @@ impl Desugarer<'_, '_> {
         self.out.push(rec_sp!(condjmp_span =>
             stmt_cond_goto!(#(keyword.negate()) #cond goto #(skip_label.clone()))
         ));
+        // the jump must only run on the difficulties that the region it guards runs on
+        self.out.last_mut().expect("just pushed").diff_label = diff_label.cloned();
 
         inner(self);
 
